@@ -15,7 +15,7 @@ PROPS = {
     'C05': dict(units=['response'], kani=['status_code_raw', 'mediatype_as_str', 'header_raw_names', 'status_line_bytes', 'write_body_bytes', 'deprecation_header_line', 'allow_header_line'],
                 title='Serialized responses are well-formed and self-delimiting'),
     'C06': dict(units=['conn'], kani=[], title='Queued responses reach the stream completely, once, in order'),
-    'C07': dict(units=['client', 'server'], kani=[], title='A response is delivered only to the connection that sent its request'),
+    'C07': dict(units=['client', 'server', 'conn'], kani=[], title='A response is delivered only to the connection that sent its request'),
     'C09': dict(units=['client'], kani=[], title='No client can wedge the server'),
     'C11': dict(units=['conn', 'lemmas', 'client'], kani=[], title='A rejected request is never delivered later'),
     'C12': dict(units=['conn', 'lemmas'], kani=[], title='Descriptors passed with a request are delivered once, in order'),
